@@ -12,16 +12,21 @@ MaxSizeLine == 128       \* a chunk-size line without end
 MaxRefusal  == 10240     \* CONNECT refusal body
 Slack       == 262144    \* read-ahead of buffered readers: an implementation constant the property does not fix (generous)
 
+\* more header lines than max_headers, whatever their shape (valid, repeated, invalid name, invalid value, empty
+\* name or value), in a response head or in the head of a CONNECT reply
+HeaderFloods == {"valid-headers", "dup-headers", "invalid-name-headers", "invalid-value-headers", "del-value-headers",
+                 "empty-name-headers", "empty-value-headers", "mixed-bad-headers", "connect-valid-headers",
+                 "connect-invalid-value-headers", "connect-invalid-name-headers"}
+
 \* how much input may be consumed before the construct is rejected or cut
 Limit(e) ==
   CASE e.kind \in {"status-line", "header-line", "header-line-folded", "connect-header-line"} -> MaxLine
-    [] e.kind \in {"valid-headers", "dup-headers", "invalid-name-headers"} -> (e.maxHeaders + 2) * 64
+    [] e.kind \in HeaderFloods -> (e.maxHeaders + 2) * 64
     [] e.kind \in {"chunk-size-line", "chunk-size-zeros", "chunk-ext"} -> MaxSizeLine
     [] e.kind \in {"connect-refusal-body", "connect-refusal-body-declared"} -> MaxRefusal
     [] OTHER -> 0
 
-Bounded(e) == e.kind \in {"status-line", "header-line", "header-line-folded", "connect-header-line", "valid-headers",
-                          "dup-headers", "invalid-name-headers", "chunk-size-line", "chunk-size-zeros", "chunk-ext",
+Bounded(e) == e.kind \in HeaderFloods \cup {"status-line", "header-line", "header-line-folded", "connect-header-line", "chunk-size-line", "chunk-size-zeros", "chunk-ext",
                           "connect-refusal-body", "connect-refusal-body-declared"}
 
 G05_returns(e)   == e.res \in {"ok", "err"}
